@@ -25,11 +25,12 @@ RULE = ("case = one visit of a knowledge state K by a long-lived real game objec
         "compute once; plus env-level step(a);unstep(a) restoring table, reward and observation bytes at every "
         "reachable state (n=3: all; n=4,5 sampled). All six registered computers; games superadditive, SAM and "
         "arbitrary (non-superadditive). Walks: every lattice edge in both directions (n=3; n=4 for cheap computers), "
-        "random walks above. Distinct = hash(values, K, computer, predecessor state); non-trivial = the table changed "
+        "random walks above (n up to 7); a sample of visits (12 quick / 150 per shard thorough, 30 % of the n=7 visits) is also "
+        "compared with the table computed in a FRESH interpreter, which process-global memos cannot have polluted. Distinct = hash(values, K, computer, predecessor state); non-trivial = the table changed "
         "across the step that led to the visit.")
 SHARDS = {"quick": 4, "thorough": 16}
 BUDGET = {"quick": 45, "thorough": 420}
-REQUIRED = ["visits_compared", "idempotence_checks", "env_step_unstep_pairs", "euler_walks", "dirty_histories"]
+REQUIRED = ["visits_compared", "idempotence_checks", "env_step_unstep_pairs", "euler_walks", "dirty_histories", "fresh_process_tables_compared"]
 
 GAPS = {"exploitability": compute_exploitability, "l1_norm": l1_norm, "l2_norm": l2_norm, "linf_norm": linf_norm}
 
@@ -42,6 +43,23 @@ def canonical(cache, n, values, comp, K):
         g.compute_bounds()
         cache[key] = sut.table_bytes(g)
     return cache[key]
+
+
+def fresh_process_table(n, values, comp, K) -> bytes | None:
+    """The table computed in a FRESH interpreter that has never computed anything else (process-global memos cannot
+    have been polluted there)."""
+    import json
+    import subprocess
+    from .. import env as venv
+    code = ("import sys, json; from vmon import sut; from incomplete_cooperative.bounds import BOUNDS; "
+            "r = json.loads(sys.stdin.read()); g = sut.new_game(r['n'], BOUNDS[r['comp']]); "
+            "sut.set_knowledge(g, r['values'], r['K']); g.compute_bounds(); sys.stdout.write(sut.table_bytes(g).hex())")
+    try:
+        r = subprocess.run([venv.PYTHON, "-c", code], input=json.dumps({"n": n, "values": list(values), "comp": comp, "K": sorted(K)}),
+                           capture_output=True, text=True, env=venv.child_env(), cwd=str(venv.ROOT), timeout=120)
+        return bytes.fromhex(r.stdout.strip()) if r.returncode == 0 else None
+    except Exception:
+        return None
 
 
 def game_for(rng, n, comp):
@@ -70,6 +88,17 @@ def walk_case(ctx, case) -> None:
         want = canonical(cache, n, values, comp, K)
         ctx.count("visits_compared")
         state["i"] += 1
+        if case.get("_fresh_budget", [0])[0] > 0 and ctx.rng.random() < (0.3 if n >= 7 else 0.02):
+            case["_fresh_budget"][0] -= 1
+            fp = fresh_process_table(n, values, comp, K)
+            if fp is None:
+                ctx.count("fresh_process_tables_failed")
+            else:
+                ctx.count("fresh_process_tables_compared")
+                if fp != got:
+                    c = {k: v for k, v in case.items() if not k.startswith("_")}
+                    ctx.violation("history-dependent-bounds", f"table differs from the table a FRESH PROCESS computes for the same "
+                                  f"knowledge K={K} (n={n}, computer={comp}, family={case['family']}): process-global state", c)
         if got != want:
             c = {k: v for k, v in case.items() if not k.startswith("_")}
             ctx.violation("history-dependent-bounds", f"table after history differs from a fresh object's table for the same "
@@ -178,10 +207,12 @@ def run(ctx) -> None:
                 actions = [i for i in range(3) if mask >> i & 1]
                 rng.shuffle(actions)
                 env_case(ctx, {"n": 3, "family": fam, "values": values, "computer": comp, "gap": gapname, "actions": actions})
-    t_half = ctx.budget_s * 0.25
+    fresh_budget = [12 if quick else 150]          # fresh-interpreter canonical tables (about 0.3 s each)
     while not ctx.out_of_time(2.0):
-        n = rng.choice([3, 4, 4, 5, 5, 6])
+        n = rng.choice([3, 4, 4, 5, 5, 6, 7])
         comp = rng.choice([c for c in comps if not (c == "sam_apx_1000" and n > 3) and not (c == "sam_apx_100" and n > 4)])
+        if n == 7:
+            comp = rng.choice(["superadditive_cached", "sam_apx_1"])
         fam, values = game_for(rng, n, comp)
         if rng.random() < 0.04:
             boundcore.poison(ctx, n, [comp])
@@ -194,7 +225,7 @@ def run(ctx) -> None:
             env_case(ctx, {"n": n, "family": fam, "values": values, "computer": comp, "gap": rng.choice(list(GAPS)),
                            "actions": ex[: rng.randint(0, len(ex) - 1)]})
         else:
-            case = {"n": n, "family": fam, "values": values, "computer": comp, "kind": "walk"}
+            case = {"n": n, "family": fam, "values": values, "computer": comp, "kind": "walk", "_fresh_budget": fresh_budget}
             for _ in range(3):
                 K = gen.random_knowledge_set(rng, n)
                 kind = rng.choice(["walk", "dirty", "dirty"])
